@@ -26,6 +26,11 @@ def const_resolver(ctx, fi, sym_texts, extra=None):
     it = ctx.interp
 
     def const(e):
+        if norm(e) in sym_texts:
+            return ("s", 0)
+        if isinstance(e, ast.BinOp) and isinstance(e.op, (ast.Add, ast.Sub)) and norm(e.left) in sym_texts and df.const_int(e.right) is not None:
+            k = df.const_int(e.right)
+            return ("s", k if isinstance(e.op, ast.Add) else -k)
         e = df.expand(e, defs)
         t = norm(e)
         if t in sym_texts:
@@ -66,10 +71,25 @@ def subject(texts, defs=None):
     texts = set(texts)
 
     def is_subject(e):
+        if norm(e) in texts:
+            return True
         if defs:
             e = df.expand(e, defs)
         return norm(e) in texts
     return is_subject
+
+
+def guarded_by_subject(root, walker):
+    """predicate on exits: the innermost `if` around the exit statement constrains the subject
+    (its test atomizes to a formula containing a value-set atom)"""
+    def pred(e):
+        if e.node is None:
+            return False
+        t = enclosing_test(root, e.node)
+        if t is None:
+            return False
+        return gi.involves_subject(walker.atomize(t))
+    return pred
 
 
 def enclosing_test(root, stmt):
